@@ -60,6 +60,12 @@ def chain_spec(kind, length):
         for k in range(length):
             node = {"type": "object", "properties": {"p%d" % k: node}}
         return {"Deep": node}
+    if kind in ("allof", "oneof"):
+        # anonymous compositions nested in one another: no named schema on the way down
+        node = {"type": "object", "properties": {"leaf": {"type": "string"}}}
+        for k in range(length):
+            node = {"allOf": [node, {"type": "object", "properties": {"q%d" % k: {"type": "string"}}}]} if kind == "allof" else {"oneOf": [node, {"type": "integer"}]}
+        return {"Deep": node}
     out = {}
     for k in range(length):
         nxt = ref("S%d" % (k + 1)) if k + 1 < length else {"type": "string"}
@@ -133,10 +139,17 @@ class DepthCut(Obligation):
         # the cut must actually happen: a chain clearly deeper than the limit cannot be parsed to the bottom
         if self.kind in ("refs", "array") and not cut and bool(lim + 3 <= self.length):
             return False, "no depth placeholder although the chain (%d named levels) is deeper than the limit %r" % (self.length, lim)
+        if self.kind in ("allof", "oneof") and not cut and bool(2 * lim + 4 <= self.length):
+            return False, "no depth cut although %d anonymous compositions nest far deeper than the limit %r" % (self.length, lim)
         return True, ""
 
     def prop(self, inp, r):
         return self.verdict(inp, r)[0]
+
+    def known(self, inp, r):
+        if self.kind in ("allof", "oneof") and not self.verdict(inp, r)[0] and not isinstance(r, Raised) and r[:3] == (0, 0, 0):
+            return "anonymous-composition-nesting-not-cut"
+        return None
 
     def describe_violation(self, inp, r):
         return "%s chain of %d with PYOPENAPI_MAX_DEPTH=%r: %s" % (self.kind, self.length, inp["limit"], self.verdict(inp, r)[1])
@@ -150,6 +163,9 @@ def specs(tier):
     out = [(MOD, f, a) for (_, f, a) in c02.specs(tier, "mk")]
     for kind in ("refs", "inline", "array"):
         for L in ((3, 6) if tier == "quick" else (3, 6, 10, 14)):
+            out.append((MOD, "mk_depth", (kind, L)))
+    for kind in ("allof", "oneof"):
+        for L in ((6,) if tier == "quick" else (6, 12)):
             out.append((MOD, "mk_depth", (kind, L)))
     # the registry is keyed by class names that are sanitised again on every look-up: the sanitiser must be a fixed point
     for n in (range(0, 4) if tier == "quick" else range(0, 6)):
